@@ -4,7 +4,7 @@ from .. import core
 
 RULE = ('all digraphs with self-loops on 1..3 nodes exhaustively (quick) / on 4 nodes exhaustively (thorough; quick: seeded '
         'sample), each realised as a function-block instance graph and as a type graph (out-degree-1 nodes as alias or '
-        'structure, both) and as a mixture of function blocks, structures and aliases referring to each other, declarations in random order, half of them with the letter case of every name occurrence chosen independently; plus random graphs up to 12 nodes, diamonds and chains of depth 200; '
+        'structure, both) and as a mixture of function blocks, structures and aliases referring to each other, declarations in random order (small graphs also with every declaration in a file of its own), half of them with the letter case of every name occurrence chosen independently; plus random graphs up to 12 nodes, diamonds and chains of depth 200; '
         'graphs of out-degree <= 1 also as enumeration alias chains used by several variables (P0010 or P0013); '
         'analyze() on the text; oracle: P0010 in codes <=> the reference graph has a cycle (independent DFS), '
         'correspondence: the Lean model `rejectsRecursive`; non-trivial = at least one edge; distinct = distinct '
@@ -80,6 +80,21 @@ def realise_mixed(n, edges, rng):
             decls.append(f'TYPE\n  T{i} : STRUCT\n{es}  END_STRUCT;\nEND_TYPE\n'); model.append(f'struct:{i}:' + ','.join(str(j) for j in outs))
     order = list(range(n)); rng.shuffle(order)
     return '\n'.join(decls[i] for i in order), [model[i] for i in order]
+
+
+def split_declarations(text):
+    """the top-level declarations of a realisation, each as a text of its own (TYPE blocks are split per declared type)"""
+    import re
+    out = []
+    for m in re.finditer(r'FUNCTION_BLOCK.*?END_FUNCTION_BLOCK\n|TYPE\n.*?END_TYPE\n', text, re.S):
+        blk = m.group(0)
+        if blk.startswith('TYPE'):
+            body = blk[len('TYPE\n'):-len('END_TYPE\n')]
+            for d in re.findall(r'  \w+ : (?:STRUCT\n.*?  END_STRUCT;\n|[^\n]*;\n)', body, re.S):
+                out.append('TYPE\n' + d + 'END_TYPE\n')
+        else:
+            out.append(blk)
+    return out
 
 
 def respell(text, rng):
@@ -164,9 +179,17 @@ def run(ctx):
         if kind == 'exhaustive' or (kind in ('sample4', 'random') and (not ctx.quick() or rng.random() < 0.25)) or (kind == 'exhaustive4' and rng.random() < 0.25):
             t, m = realise_mixed(n, edges, rng)
             cases.append({'n': n, 'edges': edges, 'kind': kind, 'real': 'fb-type-mixed', 'text': t, 'model': m})
+    # the same graphs with every declaration in a file of its own (all files begin alike, so the declarations of different
+    # files stand at the same offsets): the files of a set form one graph
+    for c in list(cases):
+        if c['real'] in ('fb', 'type-struct', 'fb-type-mixed') and 2 <= c['n'] <= 6 and (c['kind'] == 'exhaustive' or rng.random() < 0.15):
+            if c['real'] == 'fb': parts = [d for d in c['text'].split('\n\n') if d.strip()] if False else None
+            parts = split_declarations(c['text'])
+            if parts and len(parts) >= 2:
+                cases.append(dict(c, real=c['real'] + '-per-file', files=parts))
     # half of the realisations with the letter case of every name occurrence chosen independently
     for c in cases:
-        if rng.random() < 0.5:
+        if rng.random() < 0.5 and 'files' not in c:
             c['text'] = respell(c['text'], rng); c['respelled'] = True
     for n, edges, kind in graphs(ctx):
         if n <= 8 and all(sum(1 for a, _ in edges if a == i) <= 1 for i in range(n)) and (kind != 'random' or n <= 8):
@@ -174,7 +197,7 @@ def run(ctx):
     for depth in (5, 30):
         ch = [(i, i + 1) for i in range(depth - 1)]
         cases.append({'n': depth, 'edges': ch, 'kind': 'chain', 'real': 'enum-alias', 'text': realise_enum(depth, ch, rng), 'model': None})
-    impl = core.run_lines(core.VH, ['analyze ' + core.hexs(c['text']) for c in cases], jobs=12, line_timeout=60)
+    impl = core.run_lines(core.VH, ['analyze ' + (' '.join(core.hexs(f) for f in c['files']) if 'files' in c else core.hexs(c['text'])) for c in cases], jobs=12, line_timeout=60)
     model = core.run_lines(core.PLCDRV, ['c07 ' + ' '.join(c['model']) if c['model'] is not None else 'noop' for c in cases], jobs=12) if ctx.model_available else [None] * len(cases)
     for c, io, mo in zip(cases, impl, model):
         ctx.evaluations += 1
